@@ -15,3 +15,12 @@ func VerifBatchLen(b *Batch) int { return len(b.events) }
 
 // VerifBatcher returns the Batcher wrapped by a RetriableBatcher.
 func (b *RetriableBatcher) VerifBatcher() *Batcher { return b.batcher }
+
+// VerifCurBatchStatus returns the status of the batch being filled (-1 if there is none). Only
+// meaningful when called from a trace point inside b.mu (e.g. from the `b.seal` trace callback).
+func (b *Batcher) VerifCurBatchStatus() int {
+	if b.batch == nil {
+		return -1
+	}
+	return int(b.batch.status)
+}
